@@ -2030,6 +2030,10 @@ pub fn stress_strategy(kind: Kind, async_pct: u32) -> BoxedStrategy<StressCase> 
                 let racer = if storm {
                     // insert storms: many accepted inserts land between close()'s clear and its stop
                     proptest::collection::vec(prop_oneof![6 => (0u32..40, 1i64..3).prop_map(|(k, cost)| SOp::Insert { k, cost, ttl_ms: 0 }), 1 => (0u16..600).prop_map(SOp::Spin)], 20..60).boxed()
+                } else if perturb % 3 == 1 {
+                    // lookup storms: batches of recorded lookups keep arriving at the policy worker
+                    // while the close stops it
+                    proptest::collection::vec(prop_oneof![10 => (0u32..8).prop_map(|k| SOp::Get { k }), 1 => (0u16..300).prop_map(SOp::Spin)], 40..140).boxed()
                 } else {
                     proptest::collection::vec(
                         prop_oneof![8 => sop_common(8, 10), 1 => Just(SOp::Clear), 1 => Just(SOp::Len), 1 => (1i64..20).prop_map(|m| SOp::UpdateMax { m })],
@@ -2267,6 +2271,14 @@ pub fn stress_strategy(kind: Kind, async_pct: u32) -> BoxedStrategy<StressCase> 
                             }
                         }
                     }
+                    // ... and in half of the hot-key cases two more clients do nothing but look keys
+                    // up: the policy worker is kept busy applying batches (it holds the policy lock
+                    // meanwhile) while the processor charges, re-prices and releases
+                    if hot && perturb % 2 == 0 {
+                        for r in 0..2u32 {
+                            threads.push((0..160u32).map(|i| SOp::Get { k: (i * 7 + r) % 10 }).collect());
+                        }
+                    }
                     threads
                 }).prop_map(move |threads| StressCase {
                     kind,
@@ -2373,7 +2385,10 @@ fn run_reclaim(case: &StressCase, api: Box<dyn Api>, cb: &RecTs) -> SResult {
     // guard mode: a client keeps a write guard (get_mut) on a neighbouring key of an expiring
     // entry's shard alive for ~300 us at a time, so that the sweep runs into a held shard lock
     let guard = case.perturb % 3 == 2;
-    let readers = case.perturb % 3 == 0 && (case.perturb / 3) % 2 == 0;
+    // (not on the current-thread executor: the policy task's loop never yields while batches keep
+    // arriving, so a lookup flood from other OS threads starves the cache processor sharing its
+    // thread - observation D16; C05 does not quantify over lookup floods)
+    let readers = case.perturb % 3 == 0 && (case.perturb / 3) % 2 == 0 && !matches!(case.exec, Exec::TokioCt);
     let stop = AtomicBool::new(false);
     let guard_key = 256 * 3 + (resident[0].key % 256);
     if guard {
@@ -2400,8 +2415,13 @@ fn run_reclaim(case: &StressCase, api: Box<dyn Api>, cb: &RecTs) -> SResult {
             sc.spawn(move || {
                 let mut j = 0u32;
                 while !stop.load(Ordering::Relaxed) {
-                    j = j.wrapping_add(1);
-                    let _ = api2.get((256 * (60 + w) + (j % 50)) as u64);
+                    // bursts of lookups with short pauses: the policy worker is busy often, the
+                    // machine is not saturated (16 such cases run side by side)
+                    for _ in 0..16 {
+                        j = j.wrapping_add(1);
+                        let _ = api2.get((256 * (60 + w) + (j % 50)) as u64);
+                    }
+                    std::thread::sleep(Duration::from_micros(40));
                 }
             });
         }
